@@ -110,7 +110,40 @@ func c01Run(ci any) Result {
 		rServe(e, &cur, *c.Dirty)
 		tags = append(tags, "recycled-context")
 	}
-	rServe(e, &cur, c.Req)
+	// a third of the handlers forward internally: they route another path (an instance of another route of the
+	// table) on their own context with Router.Find, as "internal redirect" helpers do
+	var fwd *rReq
+	if (len(c.Req.Path)+len(c.Routes))%3 == 0 {
+		k := (len(c.Req.Path) + 1) % len(c.Routes)
+		if c.Routes[k].Method != routeNotFound {
+			toks, names, _ := rNorm(c.Routes[k].Path)
+			vals := make([]string, len(names))
+			for i := range vals {
+				vals[i] = "f" + wInt(i)
+			}
+			if pp, ok := rInst(toks, vals); ok {
+				fwd = &rReq{Method: c.Routes[k].Method, Path: pp}
+			}
+		}
+	}
+	rServeFwd(e, &cur, c.Req, fwd)
+	fwdOracle := ""
+	if fwd != nil && cur.Kind == 'D' && cur.FwdDone && !rColonClash(c.Routes) && !rHasTextAfterStar(c.Routes) {
+		// the forward must leave the context exactly as a request for that path finds it
+		main := cur
+		var plain rObs
+		plain.shared = cur.shared
+		rServe(e, &plain, *fwd)
+		if plain.Kind == 'D' {
+			if main.FwdPath != plain.PPath || strings.Join(main.FwdNames, "\x00") != strings.Join(plain.Names, "\x00") ||
+				strings.Join(main.FwdValues, "\x00") != strings.Join(plain.Values, "\x00") {
+				fwdOracle = fmt.Sprintf("after an internal forward to %s %q the context shows path %q names %q values %q; a request for that path is dispatched with path %q names %q values %q",
+					fwd.Method, fwd.Path, main.FwdPath, main.FwdNames, main.FwdValues, plain.PPath, plain.Names, plain.Values)
+			}
+		}
+		cur = main
+		tags = append(tags, "internal-forward")
+	}
 	res := Result{
 		Ops: wJoin(rTableWire(c.Routes), wStr(c.Req.Method), wStr(c.Req.Path), wInt(rMaxParam(c.Routes))),
 		// "TI1 RS1": the tree the model builds for this table must satisfy the invariant of the refinement
@@ -119,6 +152,9 @@ func c01Run(ci any) Result {
 	}
 	if !rHasTextAfterStar(c.Routes) {
 		res.Oracle = c01Oracle(c.Routes, c.Req, cur)
+		if res.Oracle == "" {
+			res.Oracle = fwdOracle
+		}
 	} else {
 		tags = append(tags, "text-after-star")
 	}
